@@ -28,6 +28,9 @@ type (
 
 type handle struct{ what string }
 
+// multi is what (values ...) yields; only multiple-value-bind looks at it.
+type multi []sx
+
 type closure struct {
 	params []string
 	body   []sx
@@ -224,6 +227,11 @@ func refPrint(v sx) string {
 		return "(" + strings.Join(parts, " ") + ")"
 	case *exitVal:
 		return "#<exit>"
+	case multi:
+		if len(tv) == 0 {
+			return "nil"
+		}
+		return refPrint(tv[0])
 	case *closure:
 		return "#<exit>" // never emitted by generated programs
 	case handle:
@@ -434,6 +442,200 @@ func (r *refEval) evalForm(f []sx, e *env) (sx, *exit) {
 			}
 		}
 		return nil, nil
+	case "or", "and":
+		var v sx
+		if head == "and" {
+			v = sym("t")
+		}
+		for _, f := range rest {
+			var ex *exit
+			if v, ex = r.eval(f, e); ex != nil {
+				return nil, ex
+			}
+			if mv, isMulti := v.(multi); isMulti {
+				// slip tests the values object, Common Lisp the primary
+				// value: not a matter of C07, the case is not judged
+				_ = mv
+				return r.unsup("multiple values tested by %s", head)
+			}
+			if truthy(v) == (head == "or") {
+				return v, nil
+			}
+		}
+		return v, nil
+	case "prog1", "multiple-value-prog1", "prog2":
+		var keep sx
+		for i, f := range rest {
+			v, ex := r.eval(f, e)
+			if ex != nil {
+				return nil, ex
+			}
+			if (head == "prog2" && i == 1) || (head != "prog2" && i == 0) {
+				keep = v
+			}
+		}
+		return keep, nil
+	case "case", "ecase":
+		key, ex := r.eval(rest[0], e)
+		if ex != nil {
+			return nil, ex
+		}
+		for _, cl := range rest[1:] {
+			clause, _ := cl.([]sx)
+			if len(clause) == 0 {
+				return r.unsup("case clause")
+			}
+			hit := false
+			switch k := clause[0].(type) {
+			case []sx:
+				for _, x := range k {
+					hit = hit || x == key
+				}
+			case sym:
+				hit = k == key || (head == "case" && (k == "t" || k == "otherwise"))
+			default:
+				hit = k == key
+			}
+			if hit {
+				return r.body(clause[1:], e)
+			}
+		}
+		if head == "ecase" {
+			return nil, r.errExit("type")
+		}
+		return nil, nil
+	case "typecase", "etypecase":
+		key, ex := r.eval(rest[0], e)
+		if ex != nil {
+			return nil, ex
+		}
+		for _, cl := range rest[1:] {
+			clause, _ := cl.([]sx)
+			if len(clause) == 0 {
+				return r.unsup("typecase clause")
+			}
+			hit := false
+			switch symName(clause[0]) {
+			case "t", "otherwise":
+				hit = head == "typecase"
+			case "fixnum", "integer", "number":
+				_, hit = key.(int64)
+			case "string":
+				_, hit = key.(str)
+			case "symbol":
+				_, hit = key.(sym)
+			default:
+				return r.unsup("type %v", clause[0])
+			}
+			if hit {
+				return r.body(clause[1:], e)
+			}
+		}
+		if head == "etypecase" {
+			return nil, r.errExit("type")
+		}
+		return nil, nil
+	case "progv":
+		names, ex := r.eval(rest[0], e)
+		if ex != nil {
+			return nil, ex
+		}
+		vals, ex := r.eval(rest[1], e)
+		if ex != nil {
+			return nil, ex
+		}
+		pe := e.child()
+		nl, _ := names.([]sx)
+		vl, _ := vals.([]sx)
+		for i, nm := range nl {
+			var v sx
+			if i < len(vl) {
+				v = vl[i]
+			}
+			pe.bind(symName(nm), v)
+		}
+		return r.body(rest[2:], pe)
+	case "with-output-to-string", "with-input-from-string", "with-open-stream", "with-input-from-octets":
+		spec, _ := rest[0].([]sx)
+		fe := e.child()
+		if len(spec) > 1 {
+			if _, ex := r.eval(spec[1], e); ex != nil {
+				return nil, ex
+			}
+		}
+		fe.bind(symName(spec[0]), handle{"stream"})
+		v, ex := r.body(rest[1:], fe)
+		if ex == nil && head == "with-output-to-string" {
+			return str(""), nil
+		}
+		return v, ex
+	case "make-string-input-stream":
+		if _, ex := r.args(rest, e); ex != nil {
+			return nil, ex
+		}
+		return handle{"stream"}, nil
+	case "with-slots":
+		if symName(rest[1]) != "c07-inst" {
+			return r.unsup("with-slots")
+		}
+		se := e.child()
+		se.bind("a", int64(1))
+		return r.body(rest[2:], se)
+	case "let*":
+		binds, _ := rest[0].([]sx)
+		le := e.child()
+		for _, bx := range binds {
+			b, _ := bx.([]sx)
+			v, ex := r.eval(b[1], le)
+			if ex != nil {
+				return nil, ex
+			}
+			le = le.child()
+			le.bind(symName(b[0]), v)
+		}
+		return r.body(rest[1:], le)
+	case "multiple-value-bind":
+		vars, _ := rest[0].([]sx)
+		v, ex := r.eval(rest[1], e)
+		if ex != nil {
+			return nil, ex
+		}
+		me := e.child()
+		vals, _ := v.(multi)
+		if vals == nil {
+			vals = multi{v}
+		}
+		for i, x := range vars {
+			var bv sx
+			if i < len(vals) {
+				bv = vals[i]
+			}
+			me.bind(symName(x), bv)
+		}
+		return r.body(rest[2:], me)
+	case "values":
+		av, ex := r.args(rest, e)
+		if ex != nil {
+			return nil, ex
+		}
+		return multi(av), nil
+	case "vector":
+		av, ex := r.args(rest, e)
+		if ex != nil {
+			return nil, ex
+		}
+		return av, nil
+	case "loop":
+		return r.block("nil", []sx{loopBodyV(func(le *env) (sx, *exit) {
+			for {
+				if _, ex := r.body(rest, le); ex != nil {
+					return nil, ex
+				}
+				if r.budget < 0 {
+					return r.unsup("budget")
+				}
+			}
+		})}, e)
 	case "let":
 		binds, _ := rest[0].([]sx)
 		le := e.child()
@@ -511,7 +713,8 @@ func (r *refEval) evalForm(f []sx, e *env) (sx, *exit) {
 	case "ignore-errors":
 		v, ex := r.body(rest, e)
 		if ex != nil && ex.kind == exErr && ex.err != "unsupported" {
-			return nil, nil
+			// two values: nil and the condition
+			return multi{nil, handle{"condition"}}, nil
 		}
 		return v, ex
 	case "recover":
@@ -571,14 +774,14 @@ func (r *refEval) evalForm(f []sx, e *env) (sx, *exit) {
 			return r.unsup("send")
 		}
 		return r.call(c, []sx{int64(1)})
-	case "dolist", "dotimes":
+	case "dolist", "dotimes", "dovector":
 		spec, _ := rest[0].([]sx)
 		v, ex := r.eval(spec[1], e)
 		if ex != nil {
 			return nil, ex
 		}
 		var items []sx
-		if head == "dolist" {
+		if head != "dotimes" {
 			items, _ = v.([]sx)
 		} else {
 			n, _ := v.(int64)
@@ -586,17 +789,25 @@ func (r *refEval) evalForm(f []sx, e *env) (sx, *exit) {
 				items = append(items, i)
 			}
 		}
-		return r.block("nil", []sx{loopBody(func(le *env) *exit {
+		return r.block("nil", []sx{loopBodyV(func(le *env) (sx, *exit) {
 			for _, it := range items {
 				ie := le.child()
 				ie.bind(symName(spec[0]), it)
 				if ex := r.tagbody(rest[1:], ie); ex != nil {
-					return ex
+					return nil, ex
 				}
 			}
-			return nil
+			if len(spec) > 2 {
+				re := le.child()
+				re.bind(symName(spec[0]), nil)
+				if head == "dotimes" {
+					re.bind(symName(spec[0]), int64(len(items)))
+				}
+				return r.eval(spec[2], re)
+			}
+			return nil, nil
 		})}, e)
-	case "do":
+	case "do", "do*":
 		specs, _ := rest[0].([]sx)
 		end, _ := rest[1].([]sx)
 		return r.block("nil", []sx{loopBodyV(func(le *env) (sx, *exit) {
@@ -638,13 +849,17 @@ func (r *refEval) evalForm(f []sx, e *env) (sx, *exit) {
 				}
 			}
 		})}, e)
-	case "prog":
+	case "prog", "prog*":
 		binds, _ := rest[0].([]sx)
 		return r.block("nil", []sx{loopBody(func(le *env) *exit {
 			pe := le.child()
 			for _, bx := range binds {
 				b, _ := bx.([]sx)
-				v, ex := r.eval(b[1], le)
+				ie := le
+				if head == "prog*" {
+					ie = pe
+				}
+				v, ex := r.eval(b[1], ie)
 				if ex != nil {
 					return ex
 				}
@@ -831,6 +1046,6 @@ func refRun(forms []sx, mutexes, intrAt int) refResult {
 		}
 		return res
 	}
-	res.value = refPrint(v)
+	res.value = refPrintNested(v)
 	return res
 }
